@@ -179,22 +179,25 @@ impl BufferManager {
         size: usize,
         region: MemoryRegion,
     ) -> Option<MemoryGrant> {
-        // Check if we can allocate
-        let current = self.allocated.load(Ordering::Relaxed);
+        // Reserve with a single read-modify-write: testing the limit and adding
+        // in separate steps lets two threads both pass the test and exceed it.
+        let hard_limit = self.hard_limit;
+        let reserve = || {
+            self.allocated
+                .fetch_update(Ordering::Relaxed, Ordering::Relaxed, |current| {
+                    current.checked_add(size).filter(|total| *total <= hard_limit)
+                })
+                .is_ok()
+        };
 
-        if current + size > self.hard_limit {
-            // Try eviction first
+        if !reserve() {
+            // Try eviction first, then check again
             self.run_eviction_cycle(true);
-
-            // Check again
-            let current = self.allocated.load(Ordering::Relaxed);
-            if current + size > self.hard_limit {
+            if !reserve() {
                 return None;
             }
         }
 
-        // Perform allocation
-        self.allocated.fetch_add(size, Ordering::Relaxed);
         self.region_allocated[region.index()].fetch_add(size, Ordering::Relaxed);
 
         // Check pressure and potentially trigger background eviction
